@@ -127,6 +127,7 @@ def fieldOp {F : Type} [Add F] [Sub F] [Mul F] [Neg F] [Zero F] [One F] [FieldOp
   | "sub", [a, b] => do let a ← io.parse a; let b ← io.parse b; pure (io.shw (a - b))
   | "mul", [a, b] => do let a ← io.parse a; let b ← io.parse b; pure (io.shw (a * b))
   | "neg", [a] => do let a ← io.parse a; pure (io.shw (-a))
+  | "negif", [a, sg] => do let a ← io.parse a; pure (io.shw (negateIf a (if sg == "1" then .negative else .nonNegative)))
   | "dbl", [a] => do let a ← io.parse a; pure (io.shw (dbl a))
   | "sq", [a] => do let a ← io.parse a; pure (io.shw (sq a))
   | "inv", [a] => do let a ← io.parse a; pure (showOpt io.shw (FieldOps.inv a))
@@ -145,6 +146,7 @@ def sqrtOp {F : Type} [SqrtOps F] (io : Codec' F) (op : String) (args : List Str
   | "legendre", [a] => do let a ← io.parse a; pure (showLeg (SqrtOps.legendre a))
   | "sgn0", [a] => do let a ← io.parse a; pure (showSgn (SqrtOps.sgn0 a))
   | "lt", [a, b] => do let a ← io.parse a; let b ← io.parse b; pure (showBool (SqrtOps.lt a b))
+  | "sgnxor", [a, b] => pure (showSgn (Sgn0.xor (if a == "1" then .negative else .nonNegative) (if b == "1" then .negative else .nonNegative)))
   | _, _ => none
 
 def orElse' (a : Option String) (b : Unit → Option String) : Option String :=
